@@ -850,6 +850,12 @@ mod pc_stream {
             }
             if matches!(st, Step::Stun(_)) && *conn.remote_addr.read() != before {
                 out.stun_moved_open += 1;
+                // KNOWN finding (clause 1, literally): an unauthenticated STUN request moved the open latch's destination
+                // to a host that never sent RTP. Emitted with its own signature so that any widening (other ports: signature
+                // below; a latched destination: sticky oracle; other transports) shows up as something else.
+                if !out.model_ops.last().map(|t| t.starts_with("mp,")).unwrap_or(false) {
+                    out.fails.push(("pc:move:stun-request-moved-open-destination".into(), format!("step {k}: {:?} -> {:?} by a STUN binding request without credentials", net.sym(before), net.sym(*conn.remote_addr.read()))));
+                }
                 if out.model_ops.last().map(|t| t.starts_with("mp,")).unwrap_or(false) {
                     out.fails.push(("pc:move:stun-request-not-from-the-pair-port-moved-destination".into(), format!("step {k}: {:?} -> {:?}", net.sym(before), net.sym(*conn.remote_addr.read()))));
                 }
